@@ -472,10 +472,12 @@ pub(crate) fn created(stat: &Stat) -> SystemTime {
 
 #[allow(clippy::cast_sign_loss)] // Checked.
 fn timestamp(ts: &libc::statx_timestamp) -> SystemTime {
-    let dur = Duration::new(ts.tv_sec as u64, ts.tv_nsec);
     if ts.tv_sec.is_negative() {
-        SystemTime::UNIX_EPOCH - dur
+        // NOTE: the nanoseconds are never negative, they count forward from
+        // the (negative) number of seconds.
+        SystemTime::UNIX_EPOCH - Duration::from_secs(ts.tv_sec.unsigned_abs())
+            + Duration::new(0, ts.tv_nsec)
     } else {
-        SystemTime::UNIX_EPOCH + dur
+        SystemTime::UNIX_EPOCH + Duration::new(ts.tv_sec as u64, ts.tv_nsec)
     }
 }
